@@ -1,7 +1,7 @@
 (* Element-level identities for Model/ElemMat.v over the reals.
    The kinematic identities hold at EVERY sampling point p (hence for any quadrature rule). *)
 From Coq Require Import ZArith List Reals Lra Lia Bool.
-From Pymoto Require Import Base.Num Base.SparseLin Base.FEMat Model.Grid Model.Shape Proofs.ShapeP Model.ElemMat.
+From Pymoto Require Import Base.Num Base.SparseLin Base.FEMat Model.Grid Model.Shape Proofs.GridP Proofs.ShapeP Model.ElemMat.
 Import ListNotations.
 Open Scope R_scope.
 
@@ -280,3 +280,141 @@ Section Stiff3.
     - apply D_psd3; auto.
   Qed.
 End Stiff3.
+
+(* ================================================================== mass matrix *)
+Lemma length_flat_map_const {A B} (f : A -> list B) n l : (forall a, length (f a) = n) ->
+  length (flat_map f l) = (length l * n)%nat.
+Proof. intros Hf. induction l as [|a l IH]; cbn [flat_map length]; [reflexivity|]. rewrite app_length, Hf, IH. lia. Qed.
+
+Lemma Nmat_shape ndof (N : list R) :
+  Forall (fun r => length r = (length N * ndof)%nat) (Nmat ndof N) /\ length (Nmat ndof N) = ndof.
+Proof.
+  unfold Nmat. split; [|rewrite map_length, seq_length; reflexivity].
+  apply Forall_forall. intros r Hr. apply in_map_iff in Hr as (i & <- & _).
+  apply length_flat_map_const. intros Nd. rewrite map_length, seq_length. reflexivity.
+Qed.
+
+Lemma dot_app (a1 a2 b1 b2 : list R) : length a1 = length b1 ->
+  dot (a1 ++ a2) (b1 ++ b2) = dot a1 b1 + dot a2 b2.
+Proof.
+  intros Hl. unfold dot. rewrite combine_app_eq by exact Hl. rewrite map_app, (nsum_app RthR). reflexivity.
+Qed.
+
+Lemma dot_map_map {A} (f g : A -> R) l : dot (map f l) (map g l) = nsum (map (fun a => f a * g a) l).
+Proof. induction l as [|a l IH]; [reflexivity|]. cbn [map]. rewrite dot_cons, nsum_cons, IH. reflexivity. Qed.
+
+Lemma delta_sum (a : nat -> R) n k : (k < n)%nat ->
+  nsum (map (fun j => a j * (if Nat.eqb j k then 1 else 0)) (seq 0 n)) = a k.
+Proof.
+  induction n as [|n IH]; intros Hk; [lia|].
+  rewrite seq_S, map_app, (nsum_app RthR). cbn [map Nat.add]. rewrite nsum_cons. unfold nadd, nzero; cbn [NumR]. cbn [nsum fold_right].
+  destruct (Nat.eqb_spec n k) as [->|Hne].
+  - replace (nsum (map _ (seq 0 k))) with 0; [unfold nzero; cbn [NumR]; lra|].
+    symmetry. rewrite <- (nsum_map_zero RthR (seq 0 k)). apply nsum_map_ext. intros j Hj. apply in_seq in Hj.
+    destruct (Nat.eqb_spec j k); [lia|]. unfold nzero; cbn [NumR]. lra.
+  - rewrite IH by lia. unfold nzero; cbn [NumR]. lra.
+Qed.
+
+(* the nodal vector "1 in direction k at every node" of an element with en nodes *)
+Definition unitv (ndof k : nat) : list R := map (fun j => if Nat.eqb j k then 1 else 0) (seq 0 ndof).
+Definition dirvec (ndof en k : nat) : list R := concat (repeat (unitv ndof k) en).
+
+Lemma flat_map_const_concat {A B} (c : list B) (l : list A) : flat_map (fun _ => c) l = concat (repeat c (length l)).
+Proof. induction l as [|a l IH]; [reflexivity|]. cbn [flat_map length repeat concat]. rewrite IH. reflexivity. Qed.
+
+(* Nmat . 1_k = (sum_a N_a) e_k *)
+Lemma Nmat_dir ndof (N : list R) k : (k < ndof)%nat ->
+  mvmul (Nmat ndof N) (dirvec ndof (length N) k) = map (fun i => if Nat.eqb i k then nsum N else 0) (seq 0 ndof).
+Proof.
+  intros Hk. unfold mvmul, Nmat. rewrite map_map. apply map_ext. intros i.
+  unfold dirvec. rewrite <- flat_map_const_concat.
+  induction N as [|Nd N IH]; [cbn; destruct (Nat.eqb i k); reflexivity|].
+  cbn [flat_map]. rewrite dot_app by (unfold unitv; rewrite !map_length; reflexivity).
+  rewrite IH. unfold unitv. rewrite dot_map_map.
+  rewrite (delta_sum (fun j => (if Nat.eqb i j then none_ else nzero) * Nd)%num ndof k Hk).
+  rewrite nsum_cons. unfold nadd, nmul, none_, nzero; cbn [NumR].
+  destruct (Nat.eqb i k); lra.
+Qed.
+
+Lemma dot_self_nonneg (y : list R) : 0 <= dot y y.
+Proof.
+  induction y as [|a y IH]; [cbn; lra|]. rewrite dot_cons. unfold nadd, nmul; cbn [NumR].
+  pose proof (sq_nonneg a). lra.
+Qed.
+
+Section Mass.
+  Variables (s3 : R) (d : nat) (h : list R) (mp : R) (ndof : nat).
+  Let en := (2 ^ d)%nat.
+  Let nn := (en * ndof)%nat.
+  Let c := (gauss_w d h * thick_prop d h mp)%num.
+  Let Nm (n : Z * Z * Z) := Nmat ndof (shape_fun d h (gauss_pos s3 h n)).
+  Hypothesis Hd : length (node_numbering (Z.of_nat d)) = en.
+
+  Lemma Nm_shape n : Forall (fun r => length r = nn) (Nm n) /\ length (Nm n) = ndof.
+  Proof.
+    unfold Nm. pose proof (Nmat_shape ndof (shape_fun d h (gauss_pos s3 h n))) as [A B].
+    unfold shape_fun in A at 2. rewrite map_length, Hd in A. split; assumption.
+  Qed.
+
+  Lemma mass_term_shape n : mshape nn nn (mmul nn (mscale c (mtrans nn (Nm n))) (Nm n)).
+  Proof. apply mmul_shape. unfold mscale, mtrans. rewrite !map_length, seq_length. reflexivity. Qed.
+
+  Lemma mass_shape : mshape nn nn (mass_element s3 d h mp ndof).
+  Proof.
+    unfold mass_element. apply (fold_madd_shape nn nn (fun n => mmul nn (mscale c (mtrans nn (Nm n))) (Nm n))).
+    - apply mzero_shape.
+    - intros n _. apply mass_term_shape.
+  Qed.
+
+  Lemma mass_bil u v :
+    bil (mass_element s3 d h mp ndof) u v =
+    nsum (map (fun n => c * dot (mvmul (Nm n) u) (mvmul (Nm n) v)) (node_numbering (Z.of_nat d))).
+  Proof.
+    unfold mass_element.
+    rewrite (fold_madd_bil RthR nn nn (fun n => mmul nn (mscale c (mtrans nn (Nm n))) (Nm n))).
+    - rewrite (bil_mzero RthR). unfold nadd, nzero; cbn [NumR]. rewrite Rplus_0_l.
+      apply nsum_map_ext. intros n _. apply (bil_BtB RthR). apply Nm_shape.
+    - apply mzero_shape.
+    - intros n _. apply mass_term_shape.
+  Qed.
+
+  Lemma mass_sym : msym (mass_element s3 d h mp ndof).
+  Proof.
+    unfold mass_element.
+    apply (fold_madd_sym RthR nn (fun n => mmul nn (mscale c (mtrans nn (Nm n))) (Nm n))).
+    - apply mzero_shape.
+    - intros n _. apply mass_term_shape.
+    - intros i j. change (ment (mzero nn nn) i j = ment (mzero nn nn) j i). rewrite !ment_mzero. reflexivity.
+    - intros n _ i j.
+      change (ment (mmul nn (mscale c (mtrans nn (Nm n))) (Nm n)) i j = ment (mmul nn (mscale c (mtrans nn (Nm n))) (Nm n)) j i).
+      destruct (mass_term_shape n) as [L1 L2].
+      destruct (Nat.lt_ge_cases i nn) as [Hi|Hi]; [destruct (Nat.lt_ge_cases j nn) as [Hj|Hj]|].
+      + rewrite !(ment_BtB RthR nn) by assumption. rewrite (dot_comm RthR). reflexivity.
+      + rewrite (ment_overflow_col nn) by assumption. rewrite ment_overflow_row by lia. reflexivity.
+      + rewrite ment_overflow_row by lia. rewrite (ment_overflow_col nn) by assumption. reflexivity.
+  Qed.
+
+  Lemma mass_psd v : 0 <= c -> 0 <= quad (mass_element s3 d h mp ndof) v.
+  Proof.
+    intros Hc. unfold quad. rewrite mass_bil. apply nsum_nonneg. intros n _.
+    apply Rmult_le_pos; [exact Hc | apply dot_self_nonneg].
+  Qed.
+
+  (* 1_k^T M_e 1_k = (number of Gauss points) * w * mp'  when the shape functions sum to one at every Gauss point *)
+  Lemma mass_total k : (k < ndof)%nat ->
+    (forall n, In n (node_numbering (Z.of_nat d)) -> nsum (shape_fun d h (gauss_pos s3 h n)) = 1) ->
+    quad (mass_element s3 d h mp ndof) (dirvec ndof en k) = INR en * c.
+  Proof.
+    intros Hk Hpou. unfold quad. rewrite mass_bil.
+    rewrite (nsum_map_ext _ (fun _ => c)).
+    - rewrite <- Hd. generalize (node_numbering (Z.of_nat d)). intros l.
+      induction l as [|a l IH]; [cbn; lra|]. cbn [map length]. rewrite nsum_cons, IH, S_INR. unfold nadd; cbn [NumR]. lra.
+    - intros n Hn. unfold Nm.
+      assert (Hl : length (shape_fun d h (gauss_pos s3 h n)) = en) by (unfold shape_fun; rewrite map_length; exact Hd).
+      rewrite <- Hl, Nmat_dir by exact Hk. rewrite (Hpou n Hn).
+      rewrite dot_map_map.
+      rewrite (nsum_map_ext _ (fun j => (if Nat.eqb j k then 1 else 0) * (if Nat.eqb j k then 1 else 0))) by reflexivity.
+      rewrite (delta_sum (fun j => if Nat.eqb j k then 1 else 0) ndof k Hk). rewrite Nat.eqb_refl.
+      unfold nmul; cbn [NumR]. lra.
+  Qed.
+End Mass.
